@@ -4,7 +4,7 @@
    comparison, choice sentences with or without for-each; derived definitions contribute no constraint). *)
 Require Import Coq.Strings.String Coq.Lists.List Coq.Bool.Bool Coq.ZArith.ZArith.
 Require Import Cnl2aspV.Base.Util Cnl2aspV.Asp.Ground Cnl2aspV.Cnl.Comparison Cnl2aspV.Cnl.Core Cnl2aspV.Cnl.CoreProofs
-               Cnl2aspV.Cnl.CoreChoice Cnl2aspV.Cnl.CoreChoiceEach Cnl2aspV.Cnl.CoreWhere.
+               Cnl2aspV.Cnl.CoreChoice Cnl2aspV.Cnl.CoreChoiceEach Cnl2aspV.Cnl.CoreWhere Cnl2aspV.Cnl.CoreOneOf Cnl2aspV.Base.Digits.
 Import ListNotations.
 Open Scope string_scope.
 
@@ -26,6 +26,9 @@ Definition covered (s : spec) (x : sentence) : Prop :=
       | None => True
       | Some e => declared s e /\ auto_var s e <> var_of s (ch_subj c) (ch_slabel c) /\ auto_var s e <> var_of s (ch_obj c) (ch_olabel c)
       end
+  | SOneOf l vals (SCons _ [] [cl] None) =>
+      l = cl_slabel cl /\ cl_slabel cl <> cl_olabel cl /\ declared s (cl_subj cl) /\ declared s (cl_obj cl) /\
+      (forall x, In x (dom_of s (cl_subj cl)) -> exists z, small z /\ x = show_Z z) /\ (forall v, In v vals -> small v)
   | _ => False
   end.
 
@@ -75,7 +78,10 @@ Section Program.
         apply (one_clause_where_correct s U I cl required w Hne Hph Hl Hr (Hdom _ Hds) (Hdom _ Hdo) (Hincl _) (Hincl _)).
       + destruct Hc as (Hne & Hds & Hdo).
         apply (one_clause_constraint_correct s U I cl required Hne (Hdom _ Hds) (Hdom _ Hdo) (Hincl _) (Hincl _)).
-    - destruct Hc.
+    - destruct y as [?|? ? ? ?|required whenpart main wh|? ? ?|? ? ? ? ?]; try destruct Hc.
+      destruct whenpart as [|? ?]; [|destruct Hc]. destruct main as [|cl [|? ?]]; try destruct Hc. destruct wh as [w|]; [destruct Hc|].
+      destruct Hc as (-> & Hne & Hds & Hdo & Hsm & Hv). cbn [r_bounds].
+      apply (one_clause_one_of_correct s U I cl required vals Hne (Hdom _ Hds) (Hdom _ Hdo) (Hincl _) (Hincl _) Hsm Hv).
     - cbn [r_bounds]. apply there_sentence_correct.
   Qed.
 
@@ -162,17 +168,30 @@ Proof.
   apply in_flat_map in Hr as (sg & _ & Hr). destruct (ground_body sg _); [|destruct Hr]. destruct Hr as [<-|[]]. exact Logic.I.
 Qed.
 
+Lemma oneof_rules_are_constraints s U l vals required whenpart main wh r :
+  In r (flat_map (ground_rule U) (compile_sentence s (SOneOf l vals (SCons required whenpart main wh)))) ->
+  exists b, r = GConstraint b.
+Proof.
+  intros Hr. cbn [compile_sentence flat_map] in Hr. rewrite app_nil_r in Hr. apply in_flat_map in Hr as (nr & Hnr & Hr).
+  apply in_map_iff in Hnr as (v & <- & _). cbn [add_eq ground_rule] in Hr.
+  apply in_flat_map in Hr as (sg & _ & Hr). destruct (ground_body sg _); [|destruct Hr]. destruct Hr as [<-|[]]. eauto.
+Qed.
+Lemma oneof_no_rules s U l vals required whenpart main wh :
+  no_rules (flat_map (ground_rule U) (compile_sentence s (SOneOf l vals (SCons required whenpart main wh)))).
+Proof. intros r Hr. destruct (oneof_rules_are_constraints s U l vals required whenpart main wh r Hr) as (b & ->). exact Logic.I. Qed.
+
 (* without derived definitions: the ground program is closed in I exactly when I holds every declared value *)
 Definition no_definition (x : sentence) : Prop :=
-  match x with SChoice _ | SCons _ _ _ _ | SThere _ _ _ _ _ => True | _ => False end.
+  match x with SChoice _ | SCons _ _ _ _ | SThere _ _ _ _ _ => True | SOneOf _ _ (SCons _ _ _ _) => True | _ => False end.
 Corollary program_closed_no_definitions (s : spec) (U : list string) (I : interp) :
   (forall x, In x (sentences s) -> no_definition x) ->
   closedb I (flat_map (ground_rule U) (compile s)) = r_domains s I.
 Proof.
   intros H. rewrite program_closed. rewrite <- (andb_true_r (r_domains s I)) at 2. f_equal.
   apply forallb_forall. intros x Hx. specialize (H x Hx). apply no_rules_closed.
-  destruct x as [c|? ? ? ?|required whenpart main wh|? ? ?|required neg v a b]; try destruct H.
+  destruct x as [c|? ? ? ?|required whenpart main wh|l vals y|required neg v a b]; try destruct H.
   - apply choice_no_rules.
   - apply cons_no_rules.
+  - destruct y; try destruct H. apply oneof_no_rules.
   - apply there_no_rules.
 Qed.
